@@ -75,6 +75,9 @@ def run(ctx):
     for i in range(3 if q else 40):
         pieces = [bs.MAGIC_BYTES + rnd.randbytes(6).replace(b'\xff', b'\1') for _ in range(rnd.choice([20, 120]))]
         streams_c.append(('flood', bs.build([bs.Stream(9, [bs.plant_block(rnd, pieces, filler=30)])])))
+    maxlen = [bs.build([bs.Stream(9, [bs.maxlen_block(rnd, 9)])]) for _ in range(10 if q else 200)]
+    for d in maxlen:
+        streams_c.append(('maxlen-groups', d))
     fol = dcorpus.follower_stream(rnd, 2000, 30000)[0]
     # ---- (1) whole program
     jobs = []
@@ -86,6 +89,10 @@ def run(ctx):
             env['LBZIP2_VERIF_IN_GRANUL'] = str(rnd.choice([64, 1024, 65536]))
             env['LBZIP2_VERIF_OUT_GRANUL'] = str(rnd.choice([5000, 65536, 900000]))
         jobs.append(('decompress ' + name, ['-d', '-n', str(rnd.choice([1, 2, 4, 8]))], d, env))
+    for d in maxlen:
+        for k in range(4):
+            jobs.append(('decompress maxlen-groups', ['-d', '-n', str(rnd.choice([1, 2, 4]))], d,
+                         {'LBZIP2_VERIF_IN_GRANUL': str(4 * rnd.randrange(32, 700))}))
     for i in range(6 if q else 100):
         jobs.append(('decompress follower', ['-d', '-n', str(rnd.choice([2, 3, 4]))], fol,
                      {'LBZIP2_VERIF_SCHED': '%d:straggler:40' % rnd.randrange(1, 1 << 30), 'LBZIP2_VERIF_IN_GRANUL': str(rnd.choice([1024, 4096]))}))
